@@ -67,7 +67,9 @@ type VoteDriver struct {
 
 func NewVoteDriver(n int, symmetry bool, full bool) *VoteDriver {
 	d := &VoteDriver{N: n, Symmetry: symmetry, MaxAdv: 3}
-	kinds := []string{"setA", "setB", "cheque", "alphaUpd", "alphaShrink", "candRm"}
+	// alphaShrink drops the last key (under the symmetry reduction: the member that votes last), alphaDrop0 the first
+	// one (the member that votes first): together they cover "a voter leaves" and "a non-voter leaves"
+	kinds := []string{"setA", "setB", "cheque", "alphaUpd", "alphaShrink", "alphaDrop0", "candRm"}
 	deltas := []uint32{1, 19, 20, 21}
 	if !full {
 		kinds = []string{"setA", "setB", "cheque"}
@@ -164,6 +166,8 @@ func (d *VoteDriver) OpName(_ *Node, i int) string {
 		return "alphabetUpdate(idD,rotated list) by " + d.who(o.who)
 	case "alphaShrink":
 		return "alphabetUpdate(idE,list without its last key) by " + d.who(o.who)
+	case "alphaDrop0":
+		return "alphabetUpdate(idF,list without its first key) by " + d.who(o.who)
 	}
 	return "innerRingCandidateRemove(X) by " + d.who(o.who)
 }
@@ -223,6 +227,17 @@ func (d *VoteDriver) Step(x *Exec, n *Node, i int) StepResult {
 	case "alphaUpd":
 		id = "idD"
 		rotated = append(append([]int{}, m.alpha[1:]...), m.alpha[0])
+		var ks []any
+		for _, k := range rotated {
+			ks = append(ks, d.members[k].Pub())
+		}
+		scr = Script(h, "alphabetUpdate", voteID(id), ks)
+	case "alphaDrop0":
+		id = "idF"
+		rotated = append([]int{}, m.alpha...)
+		if len(rotated) > 1 {
+			rotated = rotated[1:]
+		}
 		var ks []any
 		for _, k := range rotated {
 			ks = append(ks, d.members[k].Pub())
@@ -292,7 +307,7 @@ func (d *VoteDriver) Step(x *Exec, n *Node, i int) StepResult {
 			nm.gasC -= 5
 			expN = []Notif{{"GAS", "Transfer", []any{NX(h.BytesBE()), NX(d.u.Hash.BytesBE()), "i5"}},
 				{"neofs", "Cheque", []any{NX(voteID(id)), NX(d.u.Hash.BytesBE()), "i5", NXs("lock")}}}
-		case "alphaUpd", "alphaShrink":
+		case "alphaUpd", "alphaShrink", "alphaDrop0":
 			nm.alpha = rotated
 			var ks []any
 			for _, k := range rotated {
@@ -309,7 +324,7 @@ func (d *VoteDriver) Step(x *Exec, n *Node, i int) StepResult {
 	if !isMember && o.who != -2 || (o.who == -2 && o.kind != "candRm") {
 		// anybody else is rejected and never counts
 		if obs.Halt || len(diff) > 0 {
-			where["method"] = map[string]string{"setA": "setConfig", "setB": "setConfig", "cheque": "cheque", "alphaUpd": "alphabetUpdate", "alphaShrink": "alphabetUpdate", "candRm": "innerRingCandidateRemove"}[o.kind]
+			where["method"] = map[string]string{"setA": "setConfig", "setB": "setConfig", "cheque": "cheque", "alphaUpd": "alphabetUpdate", "alphaShrink": "alphabetUpdate", "alphaDrop0": "alphabetUpdate", "candRm": "innerRingCandidateRemove"}[o.kind]
 			return viol("stranger-vote-counted", fmt.Sprintf("%s: halt=%v, storage diff %v", d.OpName(n, i), obs.Halt, diff))
 		}
 		nn.M = m
